@@ -26,7 +26,7 @@ ASSUMPTIONS = [
     "window 0 / negative / non-integer windows are outside the quantifier (1 <= w) and not driven",
 ]
 REQUIRED = {"all": ["w_eq_1", "w_eq_N", "w_gt_N_rejected", "even_windows", "odd_windows", "delta_link_checked",
-                    "user_groups", "default_groups", "invalid_group_rejected", "histidine_windows"]}
+                    "user_groups", "default_groups", "invalid_group_rejected", "histidine_windows", "default_window_calls", "numpy_int_windows"]}
 LP = {"quick": 7, "thorough": 8}
 NRANDOM = {"quick": 500, "thorough": 3000}
 DEFAULT_GROUPS = ["ED", "RK", "RKED", "QNSTGHC", "ALMIV", "FYW", "P"]
@@ -119,7 +119,17 @@ def judge(case, rep, S):
                 rep.cnt("histidine_windows")
             for name, fn, stat in fns:
                 try:
-                    arr = fn(w) if rng.random() < 0.5 else fn(blobLen=w)
+                    form = rng.random()
+                    if w == 5 and form < 0.34:
+                        arr = fn()                          # documented default window
+                        rep.cnt("default_window_calls")
+                    elif form < 0.15:
+                        arr = fn(S["np"].int64(w))           # numpy integer window
+                        rep.cnt("numpy_int_windows")
+                    elif form < 0.55:
+                        arr = fn(w)
+                    else:
+                        arr = fn(blobLen=w)
                 except Exception as e:
                     rep.viol("raised:" + name, "%s(%d) raised %s: %s on %s (N=%d)" % (name, w, type(e).__name__, e, seq, N), sig={"fn": name})
                     continue
